@@ -105,7 +105,10 @@ def convert(raw, sid, kind, shift=0):
     if scope == "ns":
         pref["ns"] = "ns1"
     sched.append(dict(pref, s="ev", op="setfield", path=["spec", "x"], value="2"))
-    # related objects change while the parent's new generation has not been synced yet (no cached customize answer for it)
+    # related objects change while the parent's new generation has not been synced yet (no cached customize answer for it);
+    # with a second parent: the customize call for p's new generation FAILS once -- q (answer cached) is woken all the same
+    if two:
+        sched.append({"s": "hookfault", "hook": "customize", "code": 500})
     for o in (WORLD[0], WORLD[4], WORLD[6]):
         sched.append(dict(oref(o), s="ev", op="touch"))
     sched += syncs()
